@@ -64,8 +64,9 @@ Qed.
 Print Assumptions C11_setup_before_task_parallel.
 
 (* The per-worker teardown discipline of the process flavour and the laziness of setup-tasks are proved at the
-   end of this file (added later).  Still NOT PROVED: that on the normal path every worker does receive its
-   terminating job (liveness of the parallel model) -- correspondence + oracle. *)
+   end of this file (added later).  That on the normal path every worker does receive its terminating job, so
+   that every started task with teardown actions IS torn down in its worker, is proved further down
+   (C11_teardown_process_complete). *)
 
 Definition ex11 (n : name) : option task :=
   match n with
@@ -300,3 +301,162 @@ Example C11_teardown_phase_nonvacuous :
   teardown [(1, [TdError; TdOk]); (2, [TdOk; TdFail; TdOk]); (3, [TdOk])]
   = [TReport 3; TAct 3 0; TReport 2; TAct 2 0; TAct 2 1; TCleanup 2; TReport 1; TAct 1 0; TCleanup 1].
 Proof. vm_compute. reflexivity. Qed.
+
+(* ===== COMPLETENESS of the per-worker teardown of the process flavour (Proofs/ParallelTdProcLiveP.v, by sub-agent).
+   C11_teardown_process_per_worker above allows "ran no teardown at all" for any worker.  Here: when run_tasks returns
+   normally (exit code 0, 1 or 2: the `while proc_count` loop ended, every worker was sent its None job, join, drain)
+   every worker process left through its terminating job, so every task whose actions were started in worker w and
+   that has teardown actions DID get its teardown run in w.
+   Invariant (on top of XI of ParallelTdProcP.v), kept by every worker step / scheduler step / iteration of the main
+   loop that does not raise:  an interrupt notice is queued in result_q, OR every worker that has exited is complete
+   (its teardown events = rev (filter has_td (its starts))).  When the loop ends normally nothing is in flight
+   (ParHoldP.main_loop_G), so no notice is queued; that every worker HAS exited when join_all returns is the liveness
+   result C09_parallel_normal_end_all_joined -- hence the hypotheses `finite_table` and `par_enough_fuel <= fuel`.
+   Both are needed in the MODEL only: below the bound join_all may use up its 4 * fuel scheduler steps with workers
+   still alive while the exit code is normal (C11_teardown_process_complete_every_fuel_refuted; doit's Child.join()
+   just waits).  The exit-code hypothesis is needed in the model AND in doit: on the raising paths (cycle / hold
+   error: 3, interrupt: 4) run_tasks calls proc.terminate() on every child, pending teardowns never run
+   (C11_teardown_process_complete_code3_cycle_refuted / _code3_hold_refuted / _code4_refuted).
+   Import line needed at the top of this file:
+     From Coq Require Import Permutation.
+     From DoitV Require Import TermP ParHoldP ParLiveP ParTermP ParallelTdProcLiveP.
+   This block makes the sentence "Still NOT PROVED: that on the normal path every worker does receive its terminating
+   job ..." (comment before ex11, above) obsolete. ===== *)
+From Coq Require Import Permutation.
+From DoitV Require Import TermP ParHoldP ParLiveP ParTermP ParallelTdProcLiveP.
+
+(* the run ended normally => every task started in a worker process that has teardown actions was torn down there *)
+Theorem C11_teardown_process_complete :
+  forall tasks univ selection, finite_table tasks univ ->
+  forall wake_rank calc_rank continue_ always nprocs sched fuel,
+  (par_enough_fuel tasks univ selection nprocs <= fuel)%nat ->
+  let res := run_parallel tasks wake_rank calc_rank continue_ always true fuel nprocs sched selection in
+  ~ In (snd res) [3; 4; 98; 99] ->
+  forall k w, In (PStart k w) (fst res) -> has_td tasks k = true -> In (PTdRun k w) (fst res).
+Proof. exact proc_teardown_all_run. Qed.
+Print Assumptions C11_teardown_process_complete.
+
+(* with C11_teardown_process_per_worker: the teardowns run by worker w are EXACTLY the tasks it started that have
+   teardown actions, in reverse order of start, once each ... *)
+Theorem C11_teardown_process_exact_per_worker :
+  forall tasks univ selection, finite_table tasks univ ->
+  forall wake_rank calc_rank continue_ always nprocs sched fuel,
+  (par_enough_fuel tasks univ selection nprocs <= fuel)%nat ->
+  let res := run_parallel tasks wake_rank calc_rank continue_ always true fuel nprocs sched selection in
+  ~ In (snd res) [3; 4; 98; 99] ->
+  forall w, wtds w (fst res) = rev (filter (has_td tasks) (wstarts w (fst res))) /\ NoDup (wtds w (fst res)).
+Proof. exact proc_teardown_exact_per_worker. Qed.
+Print Assumptions C11_teardown_process_exact_per_worker.
+
+(* ... as ONE contiguous block placed after every task the worker started, nothing of this worker afterwards *)
+Theorem C11_teardown_process_exact_block :
+  forall tasks univ selection, finite_table tasks univ ->
+  forall wake_rank calc_rank continue_ always nprocs sched fuel,
+  (par_enough_fuel tasks univ selection nprocs <= fuel)%nat ->
+  let res := run_parallel tasks wake_rank calc_rank continue_ always true fuel nprocs sched selection in
+  ~ In (snd res) [3; 4; 98; 99] ->
+  forall w, exists pre post,
+    fst res = pre ++ map (fun k => PTdRun k w) (rev (filter (has_td tasks) (wstarts w (fst res)))) ++ post /\
+    wstarts w pre = wstarts w (fst res) /\ wtds w pre = [] /\ noev w post.
+Proof. exact proc_teardown_exact_block. Qed.
+Print Assumptions C11_teardown_process_exact_block.
+
+(* globally: every task started anywhere that has teardown actions has exactly one PTdRun in the whole log
+   (with C11_teardown_process_once and _owner) ... *)
+Theorem C11_teardown_process_exactly_once :
+  forall tasks univ selection, finite_table tasks univ ->
+  forall wake_rank calc_rank continue_ always nprocs sched fuel,
+  (par_enough_fuel tasks univ selection nprocs <= fuel)%nat ->
+  let res := run_parallel tasks wake_rank calc_rank continue_ always true fuel nprocs sched selection in
+  ~ In (snd res) [3; 4; 98; 99] ->
+  forall k w, In (PStart k w) (fst res) -> has_td tasks k = true -> count_occ N.eq_dec (fwd (fst res)) k = 1%nat.
+Proof. exact proc_teardown_exactly_once. Qed.
+Print Assumptions C11_teardown_process_exactly_once.
+
+(* ... and the teardowns run by all the workers are, as a multiset, the started tasks that have teardown actions *)
+Theorem C11_teardown_process_permutation :
+  forall tasks univ selection, finite_table tasks univ ->
+  forall wake_rank calc_rank continue_ always nprocs sched fuel,
+  (par_enough_fuel tasks univ selection nprocs <= fuel)%nat ->
+  let res := run_parallel tasks wake_rank calc_rank continue_ always true fuel nprocs sched selection in
+  ~ In (snd res) [3; 4; 98; 99] ->
+  Permutation (fwd (fst res)) (filter (has_td tasks) (pstarts (fst res))).
+Proof. exact proc_teardown_permutation. Qed.
+Print Assumptions C11_teardown_process_permutation.
+
+(* the part that holds for EVERY table (finite or not) and EVERY fuel, in terms of the state run_tasks ended in
+   (run_core = run_parallel before finish(), as in C09_parallel_normal_end_all_joined): a worker that HAS exited when
+   run_tasks returns normally is complete; so if all have exited (every Child.join() returned) nothing is missing *)
+Theorem C11_teardown_process_complete_exited_worker :
+  forall tasks wake_rank calc_rank continue_ always fuel nprocs sched selection p2 w,
+  run_core tasks wake_rank calc_rank continue_ always true fuel nprocs sched selection = (PNormal, p2) ->
+  nth w (p_workers p2) WExited = WExited ->
+  let log := fst (run_parallel tasks wake_rank calc_rank continue_ always true fuel nprocs sched selection) in
+  wtds w log = rev (filter (has_td tasks) (wstarts w log)).
+Proof. exact proc_teardown_complete_exited. Qed.
+Print Assumptions C11_teardown_process_complete_exited_worker.
+
+Theorem C11_teardown_process_complete_when_joined :
+  forall tasks wake_rank calc_rank continue_ always fuel nprocs sched selection p2,
+  run_core tasks wake_rank calc_rank continue_ always true fuel nprocs sched selection = (PNormal, p2) ->
+  alive (p_workers p2) = 0%nat ->
+  let log := fst (run_parallel tasks wake_rank calc_rank continue_ always true fuel nprocs sched selection) in
+  forall k w, In (PStart k w) log -> has_td tasks k = true -> In (PTdRun k w) log.
+Proof. exact proc_teardown_all_run_joined. Qed.
+Print Assumptions C11_teardown_process_complete_when_joined.
+
+(* "for every fuel" is refuted by the model: 12 worker processes, fuel 5, exit code 1, the teardown of the only
+   executed task never runs (join_all out of its 4 * 5 scheduler steps; with the fuel of the bound it does run:
+   Example proc_teardown_fuel_bound_enough) *)
+Theorem C11_teardown_process_complete_every_fuel_refuted :
+  exists tasks wake_rank calc_rank continue_ always fuel nprocs sched selection k w,
+    let res := run_parallel tasks wake_rank calc_rank continue_ always true fuel nprocs sched selection in
+    ~ In (snd res) [3; 4; 98; 99] /\ In (PStart k w) (fst res) /\ has_td tasks k = true /\ ~ In (PTdRun k w) (fst res).
+Proof. exact proc_teardown_all_run_every_fuel_refuted. Qed.
+Print Assumptions C11_teardown_process_complete_every_fuel_refuted.
+
+(* exit codes 3 and 4 cannot be added to the normal ones (finite tables, fuel of the bound): terminate() kills the
+   workers -- cycle error after a task with teardown actions ran; hold error (everything left is on hold); interrupt *)
+Theorem C11_teardown_process_complete_code3_cycle_refuted :
+  exists tasks univ selection wake_rank calc_rank continue_ always nprocs sched k w,
+    finite_table tasks univ /\
+    let res := run_parallel tasks wake_rank calc_rank continue_ always true
+                 (par_enough_fuel tasks univ selection nprocs) nprocs sched selection in
+    snd res = 3 /\ In (PStart k w) (fst res) /\ has_td tasks k = true /\ ~ In (PTdRun k w) (fst res).
+Proof. exact proc_teardown_all_run_code3_cycle_refuted. Qed.
+Theorem C11_teardown_process_complete_code3_hold_refuted :
+  exists tasks univ selection wake_rank calc_rank continue_ always nprocs sched k w,
+    finite_table tasks univ /\
+    let res := run_parallel tasks wake_rank calc_rank continue_ always true
+                 (par_enough_fuel tasks univ selection nprocs) nprocs sched selection in
+    snd res = 3 /\ In (PStart k w) (fst res) /\ has_td tasks k = true /\ ~ In (PTdRun k w) (fst res).
+Proof. exact proc_teardown_all_run_code3_hold_refuted. Qed.
+Theorem C11_teardown_process_complete_code4_refuted :
+  exists tasks univ selection wake_rank calc_rank continue_ always nprocs sched k w,
+    finite_table tasks univ /\
+    let res := run_parallel tasks wake_rank calc_rank continue_ always true
+                 (par_enough_fuel tasks univ selection nprocs) nprocs sched selection in
+    snd res = 4 /\ In (PStart k w) (fst res) /\ has_td tasks k = true /\ ~ In (PTdRun k w) (fst res).
+Proof. exact proc_teardown_all_run_code4_refuted. Qed.
+Print Assumptions C11_teardown_process_complete_code3_cycle_refuted.
+Print Assumptions C11_teardown_process_complete_code3_hold_refuted.
+Print Assumptions C11_teardown_process_complete_code4_refuted.
+
+(* non-vacuity: five independent tasks (all but 3 with teardown actions), two worker processes, exactly the fuel of
+   the bound (3329), exit code 0: worker 0 started 1, 2, 4 and tore down 4, 2, 1; worker 1 started 0, 3 and tore down 0 *)
+Example C11_teardown_process_complete_nonvacuous :
+  finite_table ex11p [0; 1; 2; 3; 4] /\
+  let r := run_parallel ex11p (fun _ _ => 0) (fun _ => 0) false false true
+             (par_enough_fuel ex11p [0; 1; 2; 3; 4] [0; 1; 2; 3; 4] 2) 2
+             [1;0;2;1;0;1;1;2;0;1;2;1;1;0;2;1;0]%nat [0; 1; 2; 3; 4] in
+  N.of_nat (par_enough_fuel ex11p [0; 1; 2; 3; 4] [0; 1; 2; 3; 4] 2) = 3329 /\ snd r = 0 /\
+  wstarts 0 (fst r) = [1; 2; 4] /\ wtds 0 (fst r) = [4; 2; 1] /\ wstarts 1 (fst r) = [0; 3] /\ wtds 1 (fst r) = [0] /\
+  fwd (fst r) = [0; 4; 2; 1] /\ map (has_td ex11p) [0; 1; 2; 3; 4] = [true; true; true; false; true].
+Proof. split; [exact ex11p_finite|exact proc_teardown_complete_nonvacuous]. Qed.
+(* a failing task without --continue (exit code 1) is a normal end too: the failed task 0 is torn down as well *)
+Example C11_teardown_process_complete_nonvacuous_failure :
+  finite_table ex11f [0; 1; 2] /\
+  let r := run_parallel ex11f (fun _ _ => 0) (fun _ => 0) false false true (par_enough_fuel ex11f [0; 1; 2] [0; 1; 2] 2) 2
+             [1;0;2;1;0;1;1;2;0;1;2;1;1;0;2;1;0]%nat [0; 1; 2] in
+  snd r = 1 /\ wstarts 0 (fst r) = [1; 2] /\ wtds 0 (fst r) = [2; 1] /\ wstarts 1 (fst r) = [0] /\ wtds 1 (fst r) = [0].
+Proof. split; [exact ex11f_finite|exact proc_teardown_complete_nonvacuous_failure]. Qed.
